@@ -158,14 +158,14 @@ Proof.
   assert (Nq : ~ In o (opq s)). { intros Hin. destruct (l_q s L o Hin) as (c' & Hc' & _ & _ & _ & _ & Q & _). rewrite Hc in Hc'. injection Hc' as <-. unfold qstat in Q. now rewrite Hst in Q. }
   assert (Nr : ~ In (o_mid c, o) (rmap s)). { intros Hin. destruct (l_r s L _ _ Hin) as (c' & Hc' & _ & _ & _ & NS). rewrite Hc in Hc'. injection Hc' as <-. contradiction. }
   destruct (nth_error (o_items c) (o_taken c)) as [r|] eqn:En.
-  - destruct (r_kind r) eqn:Ek.
-    1, 2, 3, 5: match goal with |- Lin (updop _ ?g _) => apply (Lin_client_stream s _ o c g L Hc Nq Nr) end;
+  - destruct (r_kind r) eqn:Ek; [| destruct (o_kind c) as [|[|]| |] eqn:Eko | destruct (o_kind c) as [|[|]| |] eqn:Eko | | destruct (o_kind c) as [|[|]| |] eqn:Eko ].
+    all: try (match goal with |- Lin (updop _ ?g _) => apply (Lin_client_stream s _ o c g L Hc Nq Nr) end;
       [ reflexivity | reflexivity | reflexivity | reflexivity | reflexivity | (intros; assumption) | reflexivity | reflexivity | reflexivity | reflexivity
       | (intros _; left; unfold op_finished; cbn; now rewrite Hst)
       | (cbn; intros _; now apply S1)
       | (cbn; rewrite Hst; discriminate)
       | (cbn; rewrite Hst; discriminate)
-      | (intros _; exact IS) ].
+      | (intros _; exact IS) ]; fail).
     (* the SearchResultDone is taken: the driver removed the routing entry when it queued it *)
     assert (HD : has_doneP c) by (exists r; split; [eapply nth_error_In; eassumption|assumption]).
     assert (Ekd : exists ad, o_kind c = KSearch ad) by (unfold is_search in IS; destruct (o_kind c); try contradiction; eauto).
@@ -786,7 +786,7 @@ Proof.
   destruct (o_rx c); cbn [negb].
   2: { chan_k K Hc. cbn; discriminate. }
   destruct (nth_error (o_items c) (o_taken c)) as [r|].
-  - destruct (r_kind r); chan_k K Hc.
+  - destruct (r_kind r); try destruct (o_kind c) as [|[|]| |] eqn:Eko; chan_k K Hc.
     all: cbn; try (rewrite Hst; discriminate).
     all: destruct (o_kind c) as [| [|] | |]; try destruct (fix7 (fx s)); cbn; try discriminate; rewrite ?Hst; discriminate.
   - destruct (o_chan c) eqn:Ech; cbn [negb].
